@@ -250,8 +250,8 @@ impl AsyncRead for HScript {
 /// merge, header phase: ONE poll that sees two reads ends where two single-read polls (each from a fresh future built
 /// from the caller-held state, as proved by `poll.header-step`) would: after a first byte that leaves the header
 /// incomplete, the second read is handled exactly as a first read from the updated state.
-// NOT REGISTERED (tier=manual): CBMC does not finish this two-read harness within 290 s; kept for manual experiments.
-//@ id=poll.header-merge props=C05,C08,C15 kind=complete tier=manual
+// thorough tier only: CBMC needs about 9 minutes for this two-read harness (two reads inside one poll == two polls).
+//@ id=poll.header-merge props=C05,C08,C15 kind=complete tier=thorough
 #[kani::proof]
 #[kani::unwind(4)]
 fn k_poll_header_merge() {
